@@ -60,6 +60,34 @@ type c18Struct struct {
 	Ptr   *c18Inner
 	priv  []int
 }
+
+// a value type whose methods have pointer receivers and change the receiver (a counter, a memoising getter): held by value
+// in the caller's data, so whatever a template calls on it must act on a copy
+type c18Counter struct {
+	Name string
+	Seen int
+	memo map[string]int
+}
+
+func (c *c18Counter) Bump() int {
+	c.Seen++
+	return c.Seen
+}
+
+func (c *c18Counter) Memo() int {
+	if c.memo == nil {
+		c.memo = map[string]int{}
+	}
+	c.memo[c.Name]++
+	return len(c.memo)
+}
+
+type c18Board struct {
+	Title    string
+	Counters []c18Counter
+	Main     c18Counter
+}
+
 type c18Inner struct {
 	N    int
 	List []int
@@ -109,12 +137,14 @@ func c18Ctx(variant int) map[string]interface{} {
 		"m":  map[string]interface{}{"b": 2, "a": 1, "nested": map[string]interface{}{"k": c18Spare(1, 2)}, "list": c18Spare("l1", "l2")},
 		"m2": map[string]interface{}{"c": 3, "a": 9},
 		"tm": map[string]string{"x": "1", "y": "2"}, "tmi": map[string]int{"one": 1, "two": 2}, "im": map[int]string{2: "two", 1: "one"}, "mii": map[interface{}]interface{}{7: "seven", "k": "v", 2.5: c18Spare(1)},
-		"yl":  []interface{}{map[interface{}]interface{}{"title": "t", 1: "one"}, "plain", map[interface{}]interface{}{"nested": map[interface{}]interface{}{"k": "v"}}},
-		"ym":  map[string]interface{}{"page": map[interface{}]interface{}{"title": "home", "tags": c18Spare("a", "b")}, "n": 1},
+		"yl":   []interface{}{map[interface{}]interface{}{"title": "t", 1: "one"}, "plain", map[interface{}]interface{}{"nested": map[interface{}]interface{}{"k": "v"}}},
+		"ym":   map[string]interface{}{"page": map[interface{}]interface{}{"title": "home", "tags": c18Spare("a", "b")}, "n": 1},
 		"nest": c18Spare(c18Spare(2, 1), c18Spare("d", "c"), map[string]interface{}{"q": c18Spare(1)}),
 		"st":   c18Struct{Name: "s", Items: c18Spare(2, 1), Tags: c18SpareStr("t2", "t1"), Meta: map[string]interface{}{"k": "v"}, Ptr: inner, priv: []int{1, 2}},
 		"pst":  &c18Struct{Name: "ps", Items: c18Spare("b", "a"), Tags: c18SpareStr("u2", "u1"), Meta: map[string]interface{}{"k": c18Spare(1)}, Ptr: inner},
 		"s":    "hello world", "n": 5, "pn": inner,
+		"cs": []c18Counter{{Name: "a"}, {Name: "b", Seen: 4}}, "c1": c18Counter{Name: "c"}, "cm": map[string]c18Counter{"k": {Name: "m"}, "j": {Name: "n"}},
+		"board": c18Board{Title: "t", Counters: []c18Counter{{Name: "x"}, {Name: "y"}}, Main: c18Counter{Name: "main"}}, "ca": [2]c18Counter{{Name: "p"}, {Name: "q"}},
 	}
 }
 
@@ -239,7 +269,14 @@ func c18Templates(r *core.Rand) (map[string]string, bool) {
 	srcs := map[string]string{"inc": "{% set got = got|default([])|merge([1]) %}{% set xs = [] %}{% for i in got %}{% set i = 0 %}{% endfor %}{{ got|sort|reverse|join }}{{ passed|sort|join }}",
 		"lib": "{% macro mut(a, b) %}{% set a = a|merge([7])|sort %}{% set b = b|reverse %}{{ a|join }}{{ b|join }}{% endmacro %}"}
 	var t string
-	switch r.Intn(17) {
+	switch r.Intn(19) {
+	case 17, 18:
+		// methods with pointer receivers that change their receiver, called on values the caller holds by value
+		cv := []string{"cs", "board.Counters", "ca", "cm"}[r.Intn(4)]
+		t = "{% for c in " + cv + " %}{{ c.Bump }}{{ c.Bump }}{{ c.Memo }}{{ c.Name }}{% endfor %}{% for k, c in " + cv + " %}{{ c.Bump }}{% endfor %}" +
+			[]string{"{{ cs[0].Bump }}{{ cs[1].Memo }}", "{{ c1.Bump }}{{ c1.Memo }}{{ c1.Seen }}", "{{ cm.k.Bump }}{{ cm['j'].Memo }}", "{{ board.Main.Bump }}{{ board.Counters[0].Bump }}", "{{ (cs|first).Bump }}{{ (cs|last).Memo }}{{ (cs|reverse|first).Bump }}",
+				"{% set c = c1 %}{{ c.Bump }}{% set l = cs %}{{ l[0].Bump }}", "{% for c in cs|slice(0, 1) %}{{ c.Bump }}{% endfor %}{% for c in cs|merge(ca) %}{{ c.Bump }}{% endfor %}", "{{ ca[1].Bump }}{% include 'cinc' with {'c': c1, 'l': cs} %}"}[r.Intn(8)]
+		srcs["cinc"] = "{{ c.Bump }}{% for x in l %}{{ x.Bump }}{{ x.Memo }}{% endfor %}"
 	case 16:
 		// names bound by import / from / macro parameters / loops that are also keys of the caller's context
 		top := strings.SplitN(v, ".", 2)[0]
